@@ -220,7 +220,7 @@ func (r *Run) isJoinLocalSession(fn *Func, x ast.Expr) bool {
 		if s.kind != "assign" || s.rhs == nil {
 			return false
 		}
-		f, _ := r.calleeOfExpr(fn, s.rhs)
+		f, _ := r.calleeOfExpr(fn, r.throughLocals(fn, s.rhs))
 		if f == nil {
 			return false
 		}
@@ -233,6 +233,26 @@ func (r *Run) isJoinLocalSession(fn *Func, x ast.Expr) bool {
 		}
 	}
 	return true
+}
+
+// throughLocals follows single-assignment locals to the expression that defines them.
+func (r *Run) throughLocals(fn *Func, x ast.Expr) ast.Expr {
+	for i := 0; i < 4; i++ {
+		id, ok := ast.Unparen(x).(*ast.Ident)
+		if !ok {
+			return x
+		}
+		obj := fn.Info().Uses[id]
+		if obj == nil {
+			return x
+		}
+		ds, ok := fn.Defs().singleDef(obj)
+		if !ok || ds.kind != "assign" || ds.rhs == nil {
+			return x
+		}
+		x = ds.rhs
+	}
+	return x
 }
 
 // returnsNewSession: an unexported repository helper whose first result is, on every return, nil or
@@ -532,7 +552,7 @@ func ruleFlagWrap(r *Run) {
 			continue
 		}
 		sig := which.f.Type().(*types.Signature)
-		flagParam, doParam := sig.Params().At(0), sig.Params().At(1)
+		doParam := sig.Params().At(1)
 		paths := r.Paths(def)
 		r.Analysed(def, len(paths))
 		for pi := range paths {
@@ -548,13 +568,8 @@ func ruleFlagWrap(r *Run) {
 					g := r.Classify(path, i)
 					if strings.HasPrefix(g.Subject, "maplookup:") {
 						outcome = g.Outcome
-						// the key must be the flag parameter
-						if rhs, _, ok := lastDefOnPath(def, path, i, def.Info().Uses[ast.Unparen(ev.Cond).(*ast.Ident)]); ok {
-							if ix, ok := ast.Unparen(rhs).(*ast.IndexExpr); ok {
-								kid, _ := ast.Unparen(ix.Index).(*ast.Ident)
-								r.Check("C4e", which.display+":key", kid != nil && def.Info().Uses[kid] == flagParam && r.P.Canon(def, ix.X) == "recv", ev.Pos, "membership test looks the flag argument up in the receiver set")
-							}
-						}
+						// the flag argument is looked up in the receiver set
+						r.Check("C4e", which.display+":key", g.Subject == "maplookup:recv[param:#0]", ev.Pos, "membership test looks the flag argument up in the receiver set (%s)", g.Subject)
 					}
 				}
 			}
